@@ -40,6 +40,11 @@ var corpus = [][]string{
 	// ... Run after a completed shutdown and on a daemon shut down before it was ever started: returns at once, starts nothing
 	{"bw 1 0 c", "start", "sdw", "go run", "join", "isrunning", "isstopped"},
 	{"bw 1 0 c", "bw 2 3 g", "sdw", "go run", "join", "isrunning", "workers"},
+	// the package-level wrappers around the default daemon (first case of the first child process)
+	{"mode default", "bw 1 5 g", "bw 2 - c", "bw 3 -3,9 s", "bw 4 5 h", "ctxstopped", "start", "workers", "waitstarted 1", "bw 5 2 c", "sd", "waitseen 1",
+		"go sdw", "go run", "sleep 20", "workers", "kick 1", "join", "isrunning", "isstopped", "ctxstopped", "bw 6 0 c", "start"},
+	// the variadic order: none given = 0, only the first of several counts
+	{"mode seq", "bw 1 - c", "bw 2 3,-7 c", "bw 3 -1,9 c", "bw 4 0,5 c", "start", "workers", "bw 5 - c", "bw 6 9,-9 c", "workers", "sdw", "seenlog"},
 	// shapes of daemon_test.go
 	{"mode seq", "bw 0 0 c", "bw 1 1 c", "bw 2 2 c", "bw 3 3 c", "bw 4 4 c", "bw 5 5 c", "start", "workers", "sdw", "seenlog", "isrunning", "isstopped"},
 	{"mode seq", "bw 1 0 c", "bw 1 0 c", "start", "bw 1 0 c", "fin 1", "bw 1 0 c", "workers", "sdw", "seenlog", "bw 1 0 c"},
@@ -59,6 +64,19 @@ var corpus = [][]string{
 	{"bw 1 5 h", "bw 2 5 h", "bw 3 5 h", "bw 4 2 h", "bw 5 2 s", "bw 6 9 g", "start", "go sdw", "go sdw", "waitseen 6", "sleep 10", "kick 6", "join"},
 }
 
+// orderTok: the variadic order argument — mostly one order, sometimes none (`-`: order 0) or two (the second one must be
+// ignored).
+func orderTok(rng *hx.Rng, pool []int) string {
+	switch x := rng.Intn(16); {
+	case x == 0:
+		return "-"
+	case x <= 2:
+		return fmt.Sprintf("%d,%d", hx.Pick(rng, pool), hx.Pick(rng, pool))
+	}
+
+	return fmt.Sprintf("%d", hx.Pick(rng, pool))
+}
+
 func genSeq(rng *hx.Rng) []string {
 	s := []string{"mode seq"}
 	kind := func() string {
@@ -73,7 +91,7 @@ func genSeq(rng *hx.Rng) []string {
 		pool = extremePool
 	}
 	bw := func(maxName int) string {
-		return fmt.Sprintf("bw %d %d %s", rng.Range(1, maxName), hx.Pick(rng, pool), kind())
+		return fmt.Sprintf("bw %d %s %s", rng.Range(1, maxName), orderTok(rng, pool), kind())
 	}
 	for i, n := 0, rng.Range(0, 6); i < n; i++ {
 		s = append(s, bw(5))
@@ -130,6 +148,11 @@ func genSeq(rng *hx.Rng) []string {
 
 func genConc(rng *hx.Rng) []string {
 	var s []string
+	if rng.Chance(1, 40) {
+		// through the package-level wrappers on the package's default daemon (the first such case of a child process;
+		// the others run on a fresh instance)
+		s = append(s, "mode default")
+	}
 	kinds := []string{"c", "c", "s", "s", "h", "h", "g", "x"}
 	orders := orderPool
 	switch x := rng.Intn(12); {
@@ -139,7 +162,7 @@ func genConc(rng *hx.Rng) []string {
 		orders = extremePool
 	}
 	bw := func(maxName int) string {
-		return fmt.Sprintf("bw %d %d %s", rng.Range(1, maxName), hx.Pick(rng, orders), hx.Pick(rng, kinds))
+		return fmt.Sprintf("bw %d %s %s", rng.Range(1, maxName), orderTok(rng, orders), hx.Pick(rng, kinds))
 	}
 	for i, n := 0, rng.Range(1, 7); i < n; i++ {
 		s = append(s, bw(6))
